@@ -252,8 +252,10 @@ def structure_items(repo):
     ok = "self.sline: int = line_number" in ast.unparse(fs.node)
     items.append(Item("C04/Scope.__init__/ensures.sline", "proved" if ok else "refuted", "structural", 0.0, where=fs.where(),
                       mode="table", func=fs.qualname, detail="a scope's sline is the line number it is constructed with"))
+    from pyvc import shape
     fw = repo.func(f"{LS}.serve_workspace_symbol")
     src = ast.unparse(fw.node)
+    sfw = shape.of(repo, f"{LS}.serve_workspace_symbol")
     def sorted_by_name(fn):
         # `return sorted(matching_symbols, key=lambda k: KEY)` with KEY = k['name'] or a tuple that starts with it
         for n in ast.walk(fn):
@@ -267,17 +269,24 @@ def structure_items(repo):
                     return ast.unparse(body) == f"{a}['name']"
         return False
     ok = (sorted_by_name(fw.node)
-          and "'start': {'line': candidate.sline - 1, 'character': 0}" in src
-          and "'end': {'line': candidate.eline - 1, 'character': 0}" in src
-          and "find_in_workspace(self.obj_tree, query)" in src and "query = request['params']['query'].lower()" in src)
+          and shape.has(sfw, "'start': {'line': candidate.sline - 1, 'character': 0}")
+          and shape.has(sfw, "'end': {'line': candidate.eline - 1, 'character': 0}")
+          and shape.has(sfw, "find_in_workspace(self.obj_tree, query)") and shape.has(sfw, "query = request['params']['query'].lower()"))
     items.append(Item("C04/LangServer.serve_workspace_symbol/ensures.sorted_by_name_and_ranges",
                       "proved" if ok else "refuted", "structural", 0.0, where=fw.where(), mode="table", func=fw.qualname,
                       detail="one symbol per candidate of find_in_workspace(lower-cased query), range (sline-1, eline-1), "
                              "result sorted by the name key", witness=None if ok else {"source_tail": src[-500:]}))
     fd = repo.func(f"{LS}.serve_document_symbols")
     src = ast.unparse(fd.node)
-    ok = (src.count("scope.sline - 1, 0, scope.eline - 1, 0") == 2 and "for scope in file_obj.ast.get_scopes():" in src
-          and "child.sline - 1" in src and "container_name=scope.name" in src and "if len(scope_tree) > 2:" in src)
+    sfd = shape.of(repo, f"{LS}.serve_document_symbols")
+    def range_args(call):
+        a = [ast.unparse(x) for x in call.args]
+        return any(a[i].endswith(".sline - 1") and a[i + 1] == "0" and a[i + 2] == a[i].replace(".sline", ".eline") and a[i + 3] == "0"
+                   for i in range(len(a) - 3))
+    n_rng = sum(1 for n in ast.walk(sfd) if isinstance(n, ast.Call) and range_args(n))
+    ok = (n_rng >= 2 and any(isinstance(n, ast.For) and ast.unparse(n.iter) == "file_obj.ast.get_scopes()" for n in ast.walk(sfd))
+          and any(isinstance(n, ast.If) and ast.unparse(n.test) == "len(scope_tree) > 2" for n in ast.walk(sfd))
+          and any(isinstance(n, ast.keyword) and n.arg == "container_name" and ast.unparse(n.value).endswith(".name") for n in ast.walk(sfd)))
     items.append(Item("C04/LangServer.serve_document_symbols/ensures.projection", "proved" if ok else "refuted", "structural",
                       0.0, where=fd.where(), mode="table", func=fd.qualname,
                       detail="one symbol per kept scope of the index with range (sline-1, eline-1); members of a type listed "
